@@ -895,8 +895,10 @@ pub(super) fn load_sheet<R: Read + std::io::Seek>(
     // Map from the formula index in Excel to the index in IronCalc
     let mut index_map = HashMap::new();
 
-    // Cells part of an array formula
-    let mut array_cell = HashMap::new();
+    // Ranges of the multi-cell array formulas: (row1, column1, row2, column2),
+    // the anchor being the top-left cell. A range can be as large as the whole sheet,
+    // so the cells it covers are looked up by containment instead of being enumerated.
+    let mut array_ranges: Vec<(i32, i32, i32, i32)> = Vec::new();
 
     for row in sheet_data_nodes.children() {
         // This is the row number 1-indexed
@@ -1167,14 +1169,8 @@ pub(super) fn load_sheet<R: Read + std::io::Seek>(
                                 "The first cell of the range of an array formula must be the anchor cell".to_string(),
                             ));
                         }
-                        for r in row1..=row2 {
-                            for c in column1..=column2 {
-                                if r == row1 && c == column1 {
-                                    // skip the anchor cell
-                                    continue;
-                                }
-                                array_cell.insert((r, c), (r_index, column_index));
-                            }
+                        if row2 > row1 || column2 > column1 {
+                            array_ranges.push((row1, column1, row2, column2));
                         }
                         if is_dynamic_array {
                             array_kind =
@@ -1231,7 +1227,16 @@ pub(super) fn load_sheet<R: Read + std::io::Seek>(
                     }
                 }
             }
-            let anchor_cell = array_cell.get(&(r_index, column_index)).cloned();
+            // The last array formula covering this cell (other than as its anchor) wins
+            let anchor_cell = array_ranges
+                .iter()
+                .rev()
+                .find(|(row1, column1, row2, column2)| {
+                    (*row1..=*row2).contains(&r_index)
+                        && (*column1..=*column2).contains(&column_index)
+                        && !(r_index == *row1 && column_index == *column1)
+                })
+                .map(|(row1, column1, _, _)| (*row1, *column1));
             let cell = get_cell_from_excel(
                 cell_value,
                 value_metadata,
